@@ -1,1 +1,18 @@
 import Martian.Props.C18
+open Martian.Props.C18
+#print axioms write_loop_terminates
+#print axioms delivered_is_prefix_of_written
+#print axioms no_close_delivers_all
+#print axioms status_ok_or_closed
+#print axioms close_at_k
+#print axioms close_at_k_fresh
+#print axioms ok_preserves_invariant
+#print axioms unmatched_url_not_shaped
+#print axioms unshaped_write_untouched
+#print axioms replaced_shape_no_actions
+#print axioms invalid_config_rejected_state_unchanged
+#print axioms accepted_config_wellformed
+#print axioms accepted_shape_sorted_nonoverlapping
+#print axioms binary_searches_are_linear
+#print axioms fresh_context_ok
+#print axioms accepted_applies_only_to_later_conns
